@@ -55,6 +55,12 @@ func c12Build(in c12Input) ([]mockq.Rec, refmodel.Expr) {
 	if in.LVar == 1 {
 		l = &refmodel.Bin{Op: "-", L: l, R: &refmodel.Lit{V: 2}}
 	}
+	if in.LVar == 2 {
+		// a 2 s range on the left: whole steps at which the left side has no series at all, before and between steps
+		// at which it has some (the two sides are paired by evaluation time, not by position)
+		l = &refmodel.VecAgg{Op: "sum", Grouping: &refmodel.Grouping{Labels: []string{"a"}},
+			X: &refmodel.RangeAgg{Op: "count_over_time", Sel: []refmodel.Matcher{{Label: "side", Op: "=", Value: "L"}}, RangeNS: 2 * sec}}
+	}
 	r := vec("R")
 	switch in.RVar {
 	case 1:
@@ -72,6 +78,10 @@ func c12Build(in c12Input) ([]mockq.Rec, refmodel.Expr) {
 		return data, &refmodel.Bin{Op: in.Op, L: &refmodel.Vec{V: in.S}, R: total("R")}
 	case "nan": // x/0 is NaN: comparisons with NaN never hold
 		return data, &refmodel.Bin{Op: in.Op, L: &refmodel.Bin{Op: "/", L: l, R: &refmodel.Lit{V: 0}}, R: &refmodel.Lit{V: in.S}}
+	case "lab-v": // labelled series against vector(n): no label set is on both sides (unless the left side is empty too)
+		return data, &refmodel.Bin{Op: in.Op, L: l, R: &refmodel.Vec{V: in.S}}
+	case "v-lab":
+		return data, &refmodel.Bin{Op: in.Op, L: &refmodel.Vec{V: in.S}, R: l}
 	case "vl": // vector(n) against a literal, on every step of a range query
 		return data, &refmodel.Bin{Op: in.Op, L: &refmodel.Vec{V: in.S}, R: &refmodel.Lit{V: 2}}
 	case "lv":
@@ -292,6 +302,15 @@ func c12Run(r *vkit.Run) {
 					}
 				}
 				for _, op := range all {
+					for _, s := range []float64{1, 0} {
+						c12Check(r, c12Input{L: l, R: rr, Op: op, Kind: "lab-v", S: s, Range: rg})
+						c12Check(r, c12Input{L: l, R: rr, Op: op, Kind: "v-lab", S: s, Range: rg})
+					}
+					if rg {
+						c12Check(r, c12Input{L: l, R: rr, Op: op, Kind: "vv", LVar: 2, RVar: 0, Range: true})
+					}
+				}
+				for _, op := range all {
 					for lv := 0; lv < 2; lv++ {
 						for rv := 0; rv < 3; rv++ {
 							in := c12Input{L: l, R: rr, Op: op, Kind: "vv", LVar: lv, RVar: rv, Range: rg}
@@ -325,7 +344,7 @@ func c12Run(r *vkit.Run) {
 			r.State(fmt.Sprint(l, rr))
 		}
 	}
-	r.Note("bounds", "left/right vectors = sum by (a) (count_over_time({side=..}[10s])) for every pair of subsets of a in {1,2,3} (equal, overlapping, disjoint, empty), optionally shifted/scaled to reach 0, negatives and fractions; vector-scalar and scalar-vector for 12 operators x scalars {0,2,-3,0.5,0.1,0.3}; comparisons with and without the bool modifier; vector(n) against a literal on every step; comparisons of operands that differ by 1e-10 or by one ulp; vector-vector for 15 operators x 6 operand variants; instant and 4-step range in which series appear, persist and disappear on either side; for the 16 pairs with >= 2 series on both sides, 6 operators x instant/range under every hash-map iteration order within 1 (thorough: 2) rotated iterations")
+	r.Note("bounds", "left/right vectors = sum by (a) (count_over_time({side=..}[10s])) for every pair of subsets of a in {1,2,3} (equal, overlapping, disjoint, empty), optionally shifted/scaled to reach 0, negatives and fractions; vector-scalar and scalar-vector for 12 operators x scalars {0,2,-3,0.5,0.1,0.3}; comparisons with and without the bool modifier; vector(n) against a literal on every step; labelled series against vector(n); a left side that is empty at whole steps; comparisons of operands that differ by 1e-10 or by one ulp; vector-vector for 15 operators x 6 operand variants; instant and 4-step range in which series appear, persist and disappear on either side; for the 16 pairs with >= 2 series on both sides, 6 operators x instant/range under every hash-map iteration order within 1 (thorough: 2) rotated iterations")
 }
 
 func c12Replay(r *vkit.Run, v vkit.Violation) *vkit.Violation {
